@@ -368,6 +368,33 @@ class Check:
         return rel
 
 
+def guarded(ck, tag, case, fn, *args):
+    """Run a Spec-oracle function; observations too ill-shaped for the oracle to read (index errors,
+    missing keys) mean the implementation's data contradicts the property's data model."""
+    import traceback
+    try:
+        return fn(*args)
+    except Exception as e:
+        ck.oracle_fail(tag + ":inconsistent-observation:" + type(e).__name__, case,
+                       traceback.format_exc()[-700:], "observations the property's reference semantics can be evaluated on")
+        return None
+
+
+def run_main(main):
+    """uniform top level: infrastructure problems exit 2, never a bare traceback"""
+    import traceback
+    try:
+        main()
+    except InfraError as e:
+        print("INFRA-ERROR: " + str(e))
+        sys.exit(EXIT_INFRA)
+    except SystemExit:
+        raise
+    except Exception:
+        print("INFRA-ERROR: unexpected harness exception\n" + traceback.format_exc()[-1500:])
+        sys.exit(EXIT_INFRA)
+
+
 def known_seen_covers(corr_failures, known_seen):
     """Correspondence failures that are explained by a replayed known finding are not reported twice."""
     return False
